@@ -6,7 +6,9 @@
  * Line protocol (stdin → stdout).
  *
  * Block writer, one result line per op (same ops as `sqfsmodel c08`):
- *   bw-init <prehex> <wrflags-dec>            -> ok
+ *   bw-init <prehex> <wrflags-dec> [<base-dec>]  -> ok     (base: the file pretends to hold <base> zero bytes in front of
+ *                                                           <pre>; they are not stored, reads below base give zeros — puts the
+ *                                                           writer at offsets >= 4 GiB without 4 GiB of memory)
  *   bw-write <chk-hex> <flags-hex> <datahex>  -> ok <loc> <filesize> <nblocks> | err <code>
  *   bw-file                                   -> file <hex>
  *
@@ -15,6 +17,13 @@
  *   bp-file <flags-hex> <chunk-dec> <datahex>  (begin_file, append in chunks of <chunk> bytes, end_file) -> ok | err <code>
  *   bp-sync                                    (sqfs_block_processor_sync)                       -> ok | err <code>
  *   bp-finish                                  -> several lines, see dump_all(), terminated by `end <status>`
+ *
+ * The thread pool of the block processor is wrapped as well (same vtable, every call forwarded to the real pool):
+ * `S <flags> <datahex>` = a block handed to pool->submit by the front end (before a worker touches it),
+ * `SC <flags> <index> <datahex>` = the open fragment block handed over by process_completed_fragment (it no longer
+ * fits), `SF <flags> <index> <datahex>` = the open fragment block handed over by sqfs_block_processor_finish,
+ * `D <flags> <chk> <datahex>` = a block returned by pool->dequeue (after the worker ran).  Together with the W lines
+ * this is the exact event order of the main thread; the check replays it into `Sqfs.C08Stream` (`st-*` ops).
  *
  * Every write_data_block call the block processor makes goes through a logging wrapper around the real
  * block writer (W lines); truncate calls of the file are logged in sequence with them (T lines, before the W
@@ -91,6 +100,7 @@ typedef struct {
 	sqfs_file_t base;
 	unsigned char *buf;
 	size_t size, cap;
+	sqfs_u64 vbase;      /* virtual zero bytes in front of buf (bw mode only) */
 } memfile_t;
 
 static void mf_reserve(memfile_t *f, size_t n)
@@ -106,9 +116,18 @@ static void mf_reserve(memfile_t *f, size_t n)
 static int mf_read_at(sqfs_file_t *b, sqfs_u64 off, void *buffer, size_t size)
 {
 	memfile_t *f = (memfile_t *)b;
+	unsigned char *dst = buffer;
 	if (size == 0) return 0;
+	if (off < f->vbase) {
+		sqfs_u64 z = f->vbase - off;
+		if (z > size) z = size;
+		memset(dst, 0, z);
+		dst += z; size -= z; off += z;
+		if (size == 0) return 0;
+	}
+	off -= f->vbase;
 	if (off > f->size || size > f->size - off) return SQFS_ERROR_OUT_OF_BOUNDS;
-	memcpy(buffer, f->buf + off, size);
+	memcpy(dst, f->buf + off, size);
 	return 0;
 }
 
@@ -116,6 +135,8 @@ static int mf_write_at(sqfs_file_t *b, sqfs_u64 off, const void *buffer, size_t 
 {
 	memfile_t *f = (memfile_t *)b;
 	if (size == 0) return 0;
+	if (off < f->vbase) { fprintf(stderr, "write below the virtual base: offset %llu\n", (unsigned long long)off); abort(); }
+	off -= f->vbase;
 	mf_reserve(f, off + size);
 	if (off > f->size) memset(f->buf + f->size, 0, off - f->size);
 	memcpy(f->buf + off, buffer, size);
@@ -123,12 +144,14 @@ static int mf_write_at(sqfs_file_t *b, sqfs_u64 off, const void *buffer, size_t 
 	return 0;
 }
 
-static sqfs_u64 mf_get_size(const sqfs_file_t *b) { return ((const memfile_t *)b)->size; }
+static sqfs_u64 mf_get_size(const sqfs_file_t *b) { return ((const memfile_t *)b)->vbase + ((const memfile_t *)b)->size; }
 
 static int mf_truncate(sqfs_file_t *b, sqfs_u64 size)
 {
 	memfile_t *f = (memfile_t *)b;
 	char tmp[64];
+	if (size < f->vbase) { fprintf(stderr, "truncate below the virtual base: %llu\n", (unsigned long long)size); abort(); }
+	size -= f->vbase;
 	mf_reserve(f, size);
 	if (size > f->size) memset(f->buf + f->size, 0, size - f->size);
 	f->size = size;
@@ -167,6 +190,7 @@ static memfile_t *memfile_create(const unsigned char *pre, size_t n)
 typedef struct {
 	sqfs_compressor_t base;
 	int uncompress;
+	int decline;        /* codec "none": the compressor never makes anything smaller */
 	size_t block_size;
 } toy_t;
 
@@ -198,6 +222,7 @@ static sqfs_s32 toy_do_block(sqfs_compressor_t *c, const sqfs_u8 *in, sqfs_u32 s
 		}
 		return (sqfs_s32)o;
 	}
+	if (t->decline) return 0;
 	i = 0;
 	while (i < size) {
 		sqfs_u32 n = 1;
@@ -221,7 +246,7 @@ static sqfs_object_t *toy_copy(const sqfs_object_t *o)
 	return (sqfs_object_t *)t;
 }
 
-static sqfs_compressor_t *toy_create(size_t block_size, int uncompress)
+static sqfs_compressor_t *toy_create(size_t block_size, int uncompress, int decline)
 {
 	toy_t *t = calloc(1, sizeof(*t));
 	if (!t) abort();
@@ -231,6 +256,7 @@ static sqfs_compressor_t *toy_create(size_t block_size, int uncompress)
 	t->base.read_options = toy_read_options;
 	t->base.do_block = toy_do_block;
 	t->uncompress = uncompress;
+	t->decline = decline;
 	t->block_size = block_size;
 	return (sqfs_compressor_t *)t;
 }
@@ -332,12 +358,73 @@ struct hash_entry *__wrap_hash_table_insert_pre_hashed(struct hash_table *ht, sq
 	return __real_hash_table_insert_pre_hashed(ht, hash, key, data);
 }
 
+/* ------------------------------------------------------------------ logging wrapper around the real thread pool */
+typedef struct {
+	thread_pool_t base;
+	thread_pool_t *inner;
+} logpool_t;
+
+static sqfs_block_processor_t *proc;
+
+static void lp_destroy(thread_pool_t *p) { logpool_t *l = (logpool_t *)p; l->inner->destroy(l->inner); free(l); }
+static size_t lp_worker_count(thread_pool_t *p) { logpool_t *l = (logpool_t *)p; return l->inner->get_worker_count(l->inner); }
+static void lp_set_worker_ptr(thread_pool_t *p, size_t i, void *ptr) { logpool_t *l = (logpool_t *)p; l->inner->set_worker_ptr(l->inner, i, ptr); }
+static int lp_get_status(thread_pool_t *p) { logpool_t *l = (logpool_t *)p; return l->inner->get_status(l->inner); }
+
+static int lp_submit(thread_pool_t *p, void *ptr)
+{
+	logpool_t *l = (logpool_t *)p;
+	const sqfs_block_t *b = ptr;
+	char tmp[96];
+
+	if (logging) {
+		/* before the real submit: afterwards a worker may be rewriting the block */
+		if (b->flags & SQFS_BLK_FRAGMENT_BLOCK)
+			snprintf(tmp, sizeof tmp, "%s %x %u ", (proc != NULL && proc->frag_block == b) ? "SC" : "SF",
+				 (unsigned)b->flags, (unsigned)b->index);
+		else
+			snprintf(tmp, sizeof tmp, "S %x ", (unsigned)b->flags);
+		ev_puts(tmp);
+		ev_hex(b->data, b->size);
+		ev_puts("\n");
+	}
+	return l->inner->submit(l->inner, ptr);
+}
+
+static void *lp_dequeue(thread_pool_t *p)
+{
+	logpool_t *l = (logpool_t *)p;
+	const sqfs_block_t *b = l->inner->dequeue(l->inner);
+	char tmp[96];
+
+	if (logging && b != NULL) {
+		snprintf(tmp, sizeof tmp, "D %x %08x ", (unsigned)b->flags, (unsigned)b->checksum);
+		ev_puts(tmp);
+		ev_hex(b->data, b->size);
+		ev_puts("\n");
+	}
+	return (void *)b;
+}
+
+static thread_pool_t *logpool_create(thread_pool_t *inner)
+{
+	logpool_t *l = calloc(1, sizeof(*l));
+	if (!l) abort();
+	l->base.destroy = lp_destroy;
+	l->base.get_worker_count = lp_worker_count;
+	l->base.set_worker_ptr = lp_set_worker_ptr;
+	l->base.submit = lp_submit;
+	l->base.dequeue = lp_dequeue;
+	l->base.get_status = lp_get_status;
+	l->inner = inner;
+	return (thread_pool_t *)l;
+}
+
 /* ------------------------------------------------------------------ state */
 static memfile_t *file;
 static sqfs_block_writer_t *bw;       /* direct (bw mode) */
 
 typedef struct { sqfs_inode_generic_t *inode; unsigned char *data; size_t size; int status; } finfo_t;
-static sqfs_block_processor_t *proc;
 static sqfs_frag_table_t *ftbl;
 static sqfs_compressor_t *cmp, *uncmp;
 static logwr_t *lw;
@@ -462,11 +549,12 @@ int main(void)
 		while (p && nt < 8) { tok[nt++] = p; p = strtok(NULL, " \r\n"); }
 		if (nt == 0) { puts("bad-op"); continue; }
 
-		if (!strcmp(tok[0], "bw-init") && nt == 3) {
+		if (!strcmp(tok[0], "bw-init") && (nt == 3 || nt == 4)) {
 			unsigned char *pre; long pl = hex_decode_tok(tok[1], &pre, 0);
 			if (pl < 0) { puts("bad-op"); continue; }
 			bw_reset();
 			file = memfile_create(pre, pl);
+			if (nt == 4) file->vbase = strtoull(tok[3], NULL, 10);
 			free(pre);
 			bw = sqfs_block_writer_create((sqfs_file_t *)file, (sqfs_u32)strtoul(tok[2], NULL, 10));
 			puts(bw ? "ok" : "err create");
@@ -479,7 +567,7 @@ int main(void)
 			free(d);
 			if (ret == SQFS_ERROR_OUT_OF_BOUNDS) puts("err oob");
 			else if (ret) printf("err %d\n", ret);
-			else printf("ok %llu %llu %llu\n", (unsigned long long)loc, (unsigned long long)file->size,
+			else printf("ok %llu %llu %llu\n", (unsigned long long)loc, (unsigned long long)(file->vbase + file->size),
 				    (unsigned long long)bw->get_block_count(bw));
 		} else if (!strcmp(tok[0], "bw-file") && nt == 1 && file) {
 			printf("file "); hex_print(stdout, file->buf, file->size); printf("\n");
@@ -494,15 +582,15 @@ int main(void)
 			file = memfile_create(pre, pl);
 			free(pre);
 			if (!strcmp(tok[2], "toy")) {
-				cmp = toy_create(blocksize, 0);
-				uncmp = toy_create(blocksize, 1);
+				cmp = toy_create(blocksize, 0, 0);
+				uncmp = toy_create(blocksize, 1, 0);
 			} else {
 				sqfs_compressor_config_t cfg;
 				sqfs_compressor_config_init(&cfg, SQFS_COMP_GZIP, blocksize, 0);
-				if (!strcmp(tok[2], "none")) { cmp = toy_create(blocksize, 0); }
+				if (!strcmp(tok[2], "none")) { cmp = toy_create(blocksize, 0, 1); }
 				else if (sqfs_compressor_create(&cfg, &cmp)) { puts("err cmp"); continue; }
 				cfg.flags |= SQFS_COMP_FLAG_UNCOMPRESS;
-				if (!strcmp(tok[2], "none")) { uncmp = toy_create(blocksize, 1); }
+				if (!strcmp(tok[2], "none")) { uncmp = toy_create(blocksize, 1, 1); }
 				else if (sqfs_compressor_create(&cfg, &uncmp)) { puts("err uncmp"); continue; }
 			}
 			lw = calloc(1, sizeof(*lw));
@@ -529,6 +617,7 @@ int main(void)
 				real_equals = proc->frag_ht->key_equals_function;
 				proc->frag_ht->key_equals_function = eq_wrapper;
 				pending_frag = NULL;
+				proc->pool = logpool_create(proc->pool);
 			}
 			logging = 1;
 			if (ret) printf("err %d\n", ret); else puts("ok");
